@@ -36,6 +36,7 @@ const (
 	c8incX                // x++
 	c8useX                // trace(int(x))
 	c8useY                // trace(int(y))
+	c8constX              // const x = K (afterwards x cannot be assigned in this scope and the scopes nested in it)
 	c8leafEnd
 	c8if        // if int(x) > 500 {A}
 	c8ifElse    // if int(x) > 500 {A} else {B}
@@ -56,17 +57,21 @@ type c8stmt struct {
 
 // context bits: which of x, y are declared in the CURRENT innermost scope (redeclaration rules)
 func c8leafOK(k c8kind, ctx int) (ok bool, nctx int) {
-	xHere, yHere, xByte := ctx&1 != 0, ctx&2 != 0, ctx&4 != 0
+	xHere, yHere, xByte, xConst := ctx&1 != 0, ctx&2 != 0, ctx&4 != 0, ctx&8 != 0
 	switch k {
 	case c8declX, c8varX, c8zeroX:
-		return !xHere, ctx | 1
+		return !xHere, ctx&^8 | 1
 	case c8byteX:
-		return !xHere, ctx | 5
+		return !xHere, ctx&^8 | 5
+	case c8constX:
+		return !xHere, ctx | 9
 	case c8declY:
 		return !yHere, ctx | 2
 	case c8redecl:
-		// (a uint8 x of this scope cannot take the constant: not valid Go)
-		return !(xHere && yHere) && !xByte, ctx | 3
+		// (a uint8 x of this scope cannot take the constant: not valid Go; nor can a constant x of this scope be assigned)
+		return !(xHere && yHere) && !xByte && !(xHere && xConst), ctx&^8 | 3
+	case c8asgX, c8incX:
+		return !xConst, ctx
 	}
 	return true, ctx
 }
@@ -95,15 +100,22 @@ func (g *c8gen) stmts(size, ctx, depth int) []c8sc {
 		return nil
 	}
 	rest := size - 1
+	inner := func(k c8kind) int { // context at the start of a nested block: nothing declared here; x stays a constant unless the clause declares it
+		switch k {
+		case c8ifInit, c8ifInitEl, c8forX, c8rangeX, c8rangeXY:
+			return 0
+		}
+		return ctx & 8
+	}
 	one := func(k c8kind) {
-		for _, b := range g.blocks(rest, 0, depth-1) {
+		for _, b := range g.blocks(rest, inner(k), depth-1) {
 			out = append(out, c8sc{&c8stmt{kind: k, blocks: [][]*c8stmt{b}, size: size}, ctx})
 		}
 	}
 	two := func(k c8kind) {
 		for a := 1; a < rest; a++ {
-			for _, b1 := range g.blocks(a, 0, depth-1) {
-				for _, b2 := range g.blocks(rest-a, 0, depth-1) {
+			for _, b1 := range g.blocks(a, inner(k), depth-1) {
+				for _, b2 := range g.blocks(rest-a, inner(k), depth-1) {
 					out = append(out, c8sc{&c8stmt{kind: k, blocks: [][]*c8stmt{b1, b2}, size: size}, ctx})
 				}
 			}
@@ -193,6 +205,9 @@ func (w *c8render) stmt(s *c8stmt, ind string) {
 		p("y = %d", w.nextK()%100)
 	case c8incX:
 		p("x++")
+	case c8constX:
+		p("const x = %d", w.nextK())
+		p("_ = x")
 	case c8useX:
 		p("trace(int(x))")
 	case c8useY:
@@ -303,7 +318,7 @@ func (it *c8interp) block(bl []*c8stmt, base int, e *c8env) {
 func c8ks(s *c8stmt) int {
 	n := 0
 	switch s.kind {
-	case c8declX, c8declY, c8varX, c8asgX, c8asgY, c8ifInit, c8ifInitEl:
+	case c8declX, c8declY, c8varX, c8asgX, c8asgY, c8ifInit, c8ifInitEl, c8constX:
 		n = 1
 	case c8redecl:
 		n = 2
@@ -327,7 +342,7 @@ func c8ksBlock(b []*c8stmt) int {
 func (it *c8interp) stmt(s *c8stmt, base int, e *c8env) {
 	K := func(i int) int { return 300 + base + i + 1 }
 	switch s.kind {
-	case c8declX, c8varX:
+	case c8declX, c8varX, c8constX:
 		e.vars["x"] = &c8var{v: K(0)}
 	case c8declY:
 		e.vars["y"] = &c8var{v: K(0)}
@@ -468,12 +483,32 @@ func c8goat(pkg, src string, nf int) []string {
 }
 
 // fixed templates: parameters shadowing globals, a local shadowing an imported package name
-func c8templates() [][2]string {
+type c8tpl struct {
+	src, want string
+	extra     map[string]string // further packages, path below the program's root -> source; ROOT in an import path stands for that root
+}
+
+func c8templates() []c8tpl {
 	hdr := "package t\n\nimport (\n\t\"fmt\"\n\t\"strings\"\n)\n\nvar x = 1000\nvar y = 2000\n\n"
-	var out [][2]string
+	var out []c8tpl
 	add := func(decls, body, want string) {
-		out = append(out, [2]string{hdr + decls + "func Main() {\n" + body + "\tfmt.Println(strings.Repeat(\"-\", 2), x, y)\n}\n", want})
+		out = append(out, c8tpl{src: hdr + decls + "func Main() {\n" + body + "\tfmt.Println(strings.Repeat(\"-\", 2), x, y)\n}\n", want: want})
 	}
+	// a local, a parameter or a constant named like an imported package, and a local named like one of its variables
+	util := map[string]string{"util/util.go": "package util\n\nvar Count = 7\n\nvar Other = 1\n\nfunc Get() int {\n\treturn Count\n}\n"}
+	hdr2 := "package t\n\nimport (\n\t\"fmt\"\n\n\t\"ROOT/util\"\n)\n\ntype T struct {\n\tCount int\n\tOther int\n}\n\n"
+	add2 := func(decls, body, want string) {
+		out = append(out, c8tpl{src: hdr2 + decls + "func Main() {\n" + body + "}\n", want: want, extra: util})
+	}
+	add2("func set(util *T) int {\n\tutil.Count = 5\n\treturn util.Count\n}\n\nfunc bump() int {\n\tutil := &T{Count: 1}\n\tutil.Count += 10\n\tutil.Count++\n\treturn util.Count\n}\n\n",
+		"\tfmt.Println(set(&T{Count: 1}), bump(), util.Get(), util.Count)\n\tutil.Count = 3\n\tutil.Count++\n\tutil.Other += 2\n\tfmt.Println(util.Get(), util.Other)\n", "5 12 7 7\n4 3\n")
+	add2("func f() int {\n\tCount := 1\n\tutil.Count = 9\n\tCount++\n\tutil.Count++\n\tOther := 5\n\tutil.Other += Other\n\treturn Count*100 + util.Count\n}\n\n",
+		"\tfmt.Println(f(), util.Get(), util.Other)\n", "210 10 6\n")
+	add2("func g(Count int) int {\n\tif Count > 0 {\n\t\tutil := &T{Other: Count}\n\t\tutil.Other = util.Other * 2\n\t\tCount = util.Other\n\t}\n\tutil.Other = Count + 1\n\treturn util.Other\n}\n\n",
+		"\ta := g(4)\n\tb := util.Other\n\tc := g(-1)\n\td := util.Other\n\tfmt.Println(a, b, c, d, util.Count)\n", "9 9 0 0 7\n")
+	// constants: a local constant shadows a variable of an enclosing scope until its block ends
+	add("func f(flag bool) int {\n\tlimit := 10\n\ttotal := 0\n\tif flag {\n\t\tconst limit = 3\n\t\ttotal += limit\n\t}\n\tfor i := 0; i < 2; i++ {\n\t\tconst limit = 100\n\t\ttotal += limit\n\t}\n\treturn total*1000 + limit\n}\n\n", "\tfmt.Println(f(true), f(false))\n", "203010 200010\n-- 1000 2000\n")
+	add("const c = 5\n\nfunc f(c int) int {\n\treturn c + 1\n}\n\nfunc g() int {\n\tconst x = 2\n\tif c > 0 {\n\t\tconst y = x * 3\n\t\treturn y + x\n\t}\n\treturn x\n}\n\n", "\tc := c * 2\n\tfmt.Println(c, f(1), g(), x, y)\n", "10 2 8 1000 2000\n-- 1000 2000\n")
 	add("func f(x int) int {\n\tx = x + 1\n\treturn x\n}\n\n", "\tfmt.Println(f(5), x)\n", "6 1000\n-- 1000 2000\n")
 	add("func f(x int, y int) int {\n\tx++\n\ty += x\n\treturn y\n}\n\n", "\tfmt.Println(f(1, 2), x, y)\n", "4 1000 2000\n-- 1000 2000\n")
 	add("func f(y int) int {\n\tx = y\n\treturn x + y\n}\n\n", "\tfmt.Println(f(7), x)\n", "14 7\n-- 7 2000\n")
@@ -497,7 +532,7 @@ func c8run(r *report.Run) {
 	if r.Tier == "thorough" {
 		maxN = 6
 	}
-	r.Rule(fmt.Sprintf("all Go-valid programs over {x, y} with <=%d statement nodes, nesting <=%d, blocks of 1-2 statements: 11 leaf forms (x := K, y := K, var x int = K, var x int, var x uint8 = 250, x, y := K, K', x = K, y = K, x++, read x, read y) and 9 block-forming constructs; every K distinct; the trace of values read plus the final package-level x, y is compared; non-trivial = program in which a name is declared in a nested scope and x or y is read or written after that scope closed", maxN, depth))
+	r.Rule(fmt.Sprintf("all Go-valid programs over {x, y} with <=%d statement nodes, nesting <=%d, blocks of 1-2 statements: 12 leaf forms (x := K, y := K, var x int = K, var x int, var x uint8 = 250, const x = K, x, y := K, K', x = K, y = K, x++, read x, read y) and 9 block-forming constructs; every K distinct; the trace of values read plus the final package-level x, y is compared; non-trivial = program in which a name is declared in a nested scope and x or y is read or written after that scope closed", maxN, depth))
 	r.Assume("environment-chain interpreter is the reference, validated against the Go toolchain on the complete <=4-node layer in every run and on all templates", "bare blocks, closures, labels and goto are outside the supported subset")
 	g := &c8gen{}
 	cache := oracle.OpenCache("c08")
@@ -587,18 +622,27 @@ func c8run(r *report.Run) {
 	// templates
 	tpls := c8templates()
 	for i, tc := range tpls {
-		res := goat.RunMain(map[string]string{"t/t.go": tc[0]}, "t", "t.Main")
+		pkg := fmt.Sprintf("t%03d", i)
+		root := oracle.ModPrefix + "/" + pkg
+		src := strings.ReplaceAll(tc.src, "ROOT", root)
+		gfiles := map[string]string{"t/t.go": src}
+		ofiles := map[string]string{"t.go": strings.Replace(src, "package t\n", "package "+pkg+"\n", 1)}
+		for k, v := range tc.extra {
+			gfiles[k] = v
+			ofiles[k] = v
+		}
+		res := goat.RunMain(gfiles, "t", "t.Main")
 		r.Eval(1)
+		r.Nontrivial(tc.src)
 		got := res.Out
 		if res.Failed() {
 			got = res.String()
 		}
-		if got != tc[1] {
-			r.Fail(&report.Case{Kind: "template", Key: tc[0], Files: map[string]string{"t/t.go": tc[0]}, Want: tc[1], Got: got})
+		if got != tc.want {
+			r.Fail(&report.Case{Kind: "template", Key: tc.src, Files: gfiles, Want: tc.want, Got: got})
 		}
-		pkg := fmt.Sprintf("t%03d", i)
-		goProgs = append(goProgs, &oracle.Prog{Pkg: pkg, Files: map[string]string{"t.go": strings.Replace(tc[0], "package t\n", "package "+pkg+"\n", 1)}, Entry: "Main"})
-		goItems = append(goItems, []item{{tc[0], tc[1]}})
+		goProgs = append(goProgs, &oracle.Prog{Pkg: pkg, Files: ofiles, Entry: "Main"})
+		goItems = append(goItems, []item{{tc.src, tc.want}})
 	}
 	// reference vs Go toolchain
 	validated := 0
